@@ -249,10 +249,12 @@ def rule_warnwrap(ctx):
     yield ob(R, f, "io.load_tempo:one-line", one, "a tempo file with more than one line raises ValueError")
     wt = False
     for r in rs:
+        if r.exc != "ValueError" or symeval.pc_in_try(r.pc):
+            continue
         for c, p in symeval.pc_conds(r.pc):
-            txt = tm.show(c, 5)
-            if r.exc == "ValueError" and "weight" in txt or ("[0]" in txt and "<=" in txt and "1" in txt):
-                wt = True
+            ks = {z.a[0] for x in tm.walk(c) if x.op == "cmp" for z in x.a[1:] if z.op == "const"}
+            if {0, 1} <= ks:
+                wt = True  # the exact range is WEIGHTRANGE's obligation
     yield ob(R, f, "io.load_tempo:weight-range", wt, "a tempo weight outside [0, 1] raises ValueError")
     f = ctx.program.func("io.load_key", R)
     s = ctx.S.get(f.qual)
@@ -367,6 +369,32 @@ def _is_num_const(t):
     return t.op == "const" and isinstance(t.a[0], (int, float)) and not isinstance(t.a[0], bool)
 
 
+def _weight_semantic(c, pol):
+    """(good, witness) when the condition is a comparison formula over one operand and the constants {0, 1}; else None"""
+    from .. import finmodel
+
+    m = finmodel.Model([c])
+    ks = {k[1] for k in m.consts if k[0] == "n"}
+    if len(m.vars) != 1 or not ({0, 1} <= ks) or any(k[0] != "n" for k in m.consts):
+        return None
+    w = m.vars[0]
+    undecided = False
+    for val in m.valuations():
+        got = m.truth(c, val)
+        if got is None:
+            undecided = True
+            continue
+        if not pol:
+            got = not got
+        x = val[w.id]
+        want = x < 0 or x > 1
+        if got != want:
+            return False, (x, got)
+    if undecided or not m.ok:
+        return None
+    return True, None
+
+
 def rule_weightrange(ctx):
     """load_tempo rejects exactly the weights outside the closed interval [0, 1]."""
     R = "C20.WEIGHTRANGE"
@@ -386,6 +414,14 @@ def rule_weightrange(ctx):
                 caught.append(r)
             continue
         c, pol = conds[-1]
+        # semantic reading first: the condition compares one operand with the constants 0 and 1 only, so it is a
+        # Boolean function of the operand's position relative to them; it must equal  w < 0 or 1 < w
+        sem = _weight_semantic(c, pol)
+        if sem is not None:
+            found = True
+            good, wit = sem
+            yield ob(R, f, "io.load_tempo:weight-closed-range", good, "the raise fires exactly for weight < 0 or weight > 1 (both bounds accepted; decided on the orderings of the weight relative to 0 and 1)" if good else "the weight test does not reject exactly the weights outside the closed interval [0, 1]: it %s weight = %s" % ("rejects" if wit[1] else "accepts", wit[0]), node=r.node)
+            continue
         atoms = []
         decompose(c, pol, atoms)
         # collect the comparisons that make the raise fire; a raise under `not (a and b)` fires when either fails
